@@ -46,7 +46,7 @@ typedef struct {
 } vs_thread_t;
 
 typedef struct {
-	void *addr; int is_rw; int owner; int rcount[VS_MAXT]; int nreaders;
+	void *addr; int is_rw; int owner; int rcount[VS_MAXT]; int nreaders; int wpref;   /* wpref: created with PTHREAD_RWLOCK_PREFER_WRITER_NONRECURSIVE_NP */
 	const char *name; char namebuf[24];
 } vs_lock_t;
 
@@ -178,7 +178,9 @@ static int enabled_basic(int t) {
 	switch (T->state) {
 	case TS_RUNNABLE: return 1;
 	case TS_WANT_MUTEX: return lk[T->want].owner < 0;
-	case TS_WANT_RD: return lk[T->want].owner < 0;   /* glibc default: reader preference */
+	case TS_WANT_RD: if (lk[T->want].owner >= 0) return 0;      /* glibc default: reader preference */
+		if (lk[T->want].wpref) for (int o = 0; o < nth; o++) if (o != t && th[o].state == TS_WANT_WR && th[o].want == T->want) return 0;   /* writer preference: readers queue behind a waiting writer — also a thread that already holds the lock for reading */
+		return 1;
 	case TS_WANT_WR: return lk[T->want].owner < 0 && lk[T->want].nreaders == 0;
 	case TS_JOIN: return th[T->want].state == TS_DONE;
 	case TS_WAIT_INPUT:
@@ -193,7 +195,8 @@ static int enabled_basic(int t) {
 static int blocker_of(int t, int *out, int max) {
 	vs_thread_t *T = &th[t]; int n = 0;
 	if (T->state == TS_WANT_MUTEX) { if (lk[T->want].owner >= 0) out[n++] = lk[T->want].owner; }
-	else if (T->state == TS_WANT_RD) { if (lk[T->want].owner >= 0) out[n++] = lk[T->want].owner; }
+	else if (T->state == TS_WANT_RD) { if (lk[T->want].owner >= 0) out[n++] = lk[T->want].owner;
+		if (lk[T->want].wpref) for (int i = 0; i < nth && n < max; i++) if (i != t && th[i].state == TS_WANT_WR && th[i].want == T->want) out[n++] = i; }
 	else if (T->state == TS_WANT_WR) {
 		if (lk[T->want].owner >= 0) out[n++] = lk[T->want].owner;
 		for (int i = 0; i < nth && n < max; i++) if (lk[T->want].rcount[i] > 0) out[n++] = i;
@@ -224,7 +227,7 @@ static void held_add(int t, int l, int mode) {
 		int a = T->held[i];
 		/* edge bits: (held excl, acq excl)=1, (held excl, acq shared)=2, (held shared, acq excl)=4, (held shared, acq shared)=8 */
 		uint8_t bit = (uint8_t) (T->heldmode[i] == 1 ? (mode == 1 ? 1 : 2) : (mode == 1 ? 4 : 8));
-		if (a != l) { if (!edges[a][l]) edge_label[a][l] = T->label; edges[a][l] |= bit; }
+		if (a != l || bit == 8) { if (!edges[a][l]) edge_label[a][l] = T->label; edges[a][l] |= bit; }      /* a == l only for a read lock taken again by its holder */
 	}
 	if (T->nheld < VS_MAXL) { T->held[T->nheld] = l; T->heldmode[T->nheld] = (uint8_t) mode; T->nheld++; }
 }
@@ -430,9 +433,18 @@ int __wrap_pthread_mutex_init(pthread_mutex_t *m, const pthread_mutexattr_t *a) 
 	}
 	return __real_pthread_mutex_init(m, a);
 }
+/* rwlock kind: glibc's writer-preferring kind changes who may proceed, so it is part of the model */
+static const void *wpref_attr[8]; static int n_wpref_attr;
+int __real_pthread_rwlockattr_setkind_np(pthread_rwlockattr_t *a, int kind);
+int __wrap_pthread_rwlockattr_setkind_np(pthread_rwlockattr_t *a, int kind) {
+	if (kind == PTHREAD_RWLOCK_PREFER_WRITER_NONRECURSIVE_NP) { int k; for (k = 0; k < n_wpref_attr; k++) if (wpref_attr[k] == a) break; if (k == n_wpref_attr && n_wpref_attr < 8) wpref_attr[n_wpref_attr++] = a; }
+	else for (int k = 0; k < n_wpref_attr; k++) if (wpref_attr[k] == a) wpref_attr[k] = NULL;
+	return __real_pthread_rwlockattr_setkind_np(a, kind);
+}
 int __wrap_pthread_rwlock_init(pthread_rwlock_t *m, const pthread_rwlockattr_t *a) {
 	if (active && self_id >= 0) {
 		int i = lock_find(m, 1, 1);
+		lk[i].wpref = 0; for (int k = 0; a && k < n_wpref_attr; k++) if (wpref_attr[k] == a) lk[i].wpref = 1;
 		if (lk[i].owner >= 0 || lk[i].nreaders > 0) {
 			vs_event("reinit-held-lock %s owner=t%d readers=%d", vs_lock_name(i), lk[i].owner, lk[i].nreaders);
 			for (int t = 0; t < nth; t++) while (lk[i].rcount[t] > 0) { lk[i].rcount[t]--; held_del(t, i); }
@@ -441,6 +453,18 @@ int __wrap_pthread_rwlock_init(pthread_rwlock_t *m, const pthread_rwlockattr_t *
 		lk[i].owner = -1; lk[i].nreaders = 0; lk[i].is_rw = 1;
 	}
 	return __real_pthread_rwlock_init(m, a);
+}
+int vs_unlock_points; static long trylock_busy; static void vs_event_quiet_busy(int i) { (void) i; trylock_busy++; }
+/* pthread_mutex_trylock: a scheduling point (other threads may take or release the lock first), then the outcome is decided by
+ * the modelled owner: free -> acquired like a lock, held (also by the caller itself) -> EBUSY */
+int __real_pthread_mutex_trylock(pthread_mutex_t *);
+int __wrap_pthread_mutex_trylock(pthread_mutex_t *m) {
+	if (!active || self_id < 0) return __real_pthread_mutex_trylock(m);
+	int i = lock_find(m, 0, 1);
+	vs_point();
+	if (lk[i].owner >= 0) { vs_event_quiet_busy(i); return EBUSY; }
+	lk[i].owner = self_id; held_add(self_id, i, 1);
+	return __real_pthread_mutex_trylock(m);
 }
 int __wrap_pthread_mutex_lock(pthread_mutex_t *m) {
 	if (!active || self_id < 0) return __real_pthread_mutex_lock(m);
@@ -456,8 +480,11 @@ int __wrap_pthread_mutex_unlock(pthread_mutex_t *m) {
 		vs_event("unlock-not-held %s by t%d owner=t%d", vs_lock_name(i), self_id, lk[i].owner);
 		return EPERM;
 	}
+	if (vs_unlock_points & 2) vs_point();  /* before the unlock: others run while the lock is still held (matters for trylock users) */
 	lk[i].owner = -1; held_del(self_id, i);
-	return __real_pthread_mutex_unlock(m);
+	int r = __real_pthread_mutex_unlock(m);
+	if (vs_unlock_points & 1) vs_point();      /* harnesses that look for accesses made AFTER a lock was dropped: the code up to the next acquisition is not atomic */
+	return r;
 }
 int __wrap_pthread_rwlock_rdlock(pthread_rwlock_t *m) {
 	if (!active || self_id < 0) return __real_pthread_rwlock_rdlock(m);
@@ -482,7 +509,9 @@ int __wrap_pthread_rwlock_unlock(pthread_rwlock_t *m) {
 		vs_event("unlock-not-held %s by t%d", vs_lock_name(i), self_id);
 		return EPERM;
 	}
-	return __real_pthread_rwlock_unlock(m);
+	int r = __real_pthread_rwlock_unlock(m);
+	if (vs_unlock_points & 1) vs_point();
+	return r;
 }
 int __wrap_pthread_create(pthread_t *h, const pthread_attr_t *a, void *(*fn)(void *), void *arg) {
 	if (!active || self_id < 0) return __real_pthread_create(h, a, fn, arg);
@@ -545,7 +574,6 @@ int __wrap_clock_gettime(clockid_t c, struct timespec *ts) {
 
 /* unmodelled primitives: a changed tree must not silently escape the scheduler */
 #define UNMODELLED(name) int __wrap_##name(void) { if (active) vs_abort("unmodelled", #name " is not modelled by vsched"); return ENOSYS; }
-UNMODELLED(pthread_mutex_trylock)
 UNMODELLED(pthread_mutex_timedlock)
 UNMODELLED(pthread_rwlock_tryrdlock)
 UNMODELLED(pthread_rwlock_trywrlock)
